@@ -319,6 +319,104 @@ theorem c11_stats_step (env : Env J S C) (cfg : Cfg) (st st' : Stats) (raw : Tex
   · rw [hx] at h; simp at h; obtain ⟨rfl, rfl⟩ := h
     exact ⟨rfl, by simp [hxv], fun s => bumpAll_ge _ _ s⟩
 
+/-! ## The healing loop (`ChaperoneLoop.heal`) hands on the validator's verdict and keeps the confidence in range -/
+
+/-- `heal` always returns a `HealingResult`, for every generator behaviour (any text at any attempt), every
+    `confidence_decay` (any rational, also negative or huge), every `max_retries` and every library behaviour. -/
+theorem c11_heal_total (env : Env J S C) (cfg : Cfg) (st : Stats) (decay : Rat) (maxRetries : Nat)
+    (gen : Nat → Text) : ∃ r, (heal env cfg st decay maxRetries gen).res = .ok r := by
+  obtain ⟨st', h, hres, _⟩ := healFrom_spec env cfg decay gen (maxRetries + 1) 0 st []
+  exact ⟨_, hres⟩
+
+/-- What `heal` returns when it does not give up: the first valid `fold_enhanced` result, obtained at some
+    attempt `j ≤ max_retries` on the text the generator produced at that attempt — so its structure is a
+    successfully validated value derived from that text by one of the chaperone's strategies — with only the
+    confidence replaced by `min(confidence, ceiling of attempt j)`; `final_confidence` is that value; every
+    earlier attempt is recorded as failed with confidence 0; the outcome is VALID_FIRST_TRY exactly when `j = 0`. -/
+theorem c11_heal_result_is_a_valid_fold (env : Env J S C) (cfg : Cfg) (st st' : Stats) (decay : Rat)
+    (maxRetries : Nat) (gen : Nat → Text) (h : HealOut S C)
+    (hres : (heal env cfg st decay maxRetries gen).res = .ok (st', h)) (hnd : h.outcome ≠ .degraded) :
+    ∃ j stj stj' r, j ≤ maxRetries ∧ (foldX env cfg stj (gen j) []).res = .ok (stj', r) ∧ r.valid = true ∧
+      h.folded = some (healedFold decay j r) ∧ h.finalConfidence = ratMin r.confidence (healCeiling decay j) ∧
+      h.tagged = false ∧ (h.outcome = .validFirstTry ↔ j = 0) ∧
+      h.attempts = failedAtts 0 j ++ [⟨j, true, healCeiling decay j⟩] ∧
+      ∃ s ∈ effective cfg [], ∃ d v, r.struct = some v ∧ env.validate d = .ok v ∧ Derived env (gen j) s d ∧
+        r.raw = gen j := by
+  obtain ⟨st2, h2, hres2, hcase⟩ := healFrom_spec env cfg decay gen (maxRetries + 1) 0 st []
+  unfold heal at hres
+  rw [hres2] at hres
+  simp at hres
+  obtain ⟨rfl, rfl⟩ := hres
+  rcases hcase with ⟨hd, _⟩ | ⟨j, stj, stj', r, _, hj, hfold, hrv, hf, hfc, ht, ho, ha⟩
+  · exact absurd hd hnd
+  · obtain ⟨s, hs, d, v, hstruct, hval, hder, _, _, _⟩ :=
+      c11_valid_is_validated_enhanced env cfg stj stj' (gen j) [] r hfold hrv
+    have hraw := (c11_raw_is_echoed env cfg stj (gen j) []).2 stj' r hfold
+    refine ⟨j, stj, stj', r, by omega, hfold, hrv, hf, hfc, ht, ?_, by simpa using ha, s, hs, d, v, hstruct, hval,
+      hder, hraw⟩
+    rw [ho]
+    by_cases hj0 : j = 0 <;> simp [hj0]
+
+example : ∃ st' h, (heal toyEnv ⟨[]⟩ Stats.zero (1 / 2) 3 (fun k => if k < 2 then rawBad else rawProse)).res = .ok (st', h) ∧
+    h.outcome = .healed ∧ h.finalConfidence = 0 ∧ h.attempts.length = 3 := ⟨_, _, rfl, rfl, by decide +kernel, rfl⟩
+
+/-- When `heal` gives up: nothing is returned (no folded protein), `final_confidence` is 0, the result is tagged for
+    degradation, and exactly `max_retries + 1` failed attempts were made. -/
+theorem c11_heal_degraded_has_nothing (env : Env J S C) (cfg : Cfg) (st st' : Stats) (decay : Rat)
+    (maxRetries : Nat) (gen : Nat → Text) (h : HealOut S C)
+    (hres : (heal env cfg st decay maxRetries gen).res = .ok (st', h)) (hd : h.outcome = .degraded) :
+    h.folded = none ∧ h.finalConfidence = 0 ∧ h.tagged = true ∧ h.attempts = failedAtts 0 (maxRetries + 1) := by
+  obtain ⟨st2, h2, hres2, hcase⟩ := healFrom_spec env cfg decay gen (maxRetries + 1) 0 st []
+  unfold heal at hres
+  rw [hres2] at hres
+  simp at hres
+  obtain ⟨rfl, rfl⟩ := hres
+  rcases hcase with ⟨_, h2, h3, h4, h5⟩ | ⟨j, _, _, _, _, _, _, _, _, _, _, ho, _⟩
+  · exact ⟨h2, h3, h4, by simpa using h5⟩
+  · rw [ho] at hd
+    by_cases hj0 : j = 0 <;> simp [hj0] at hd
+
+example : ∃ st' h, (heal toyEnv ⟨[]⟩ Stats.zero (1 / 10) 2 (fun _ => rawBad)).res = .ok (st', h) ∧
+    h.outcome = .degraded := ⟨_, _, rfl, rfl⟩
+
+/-- Through the healing loop the confidence stays in [0, 1] — the final confidence, the confidence written into
+    the returned folded protein, and the confidence of every attempt record — for every decay and every number of
+    retries; and it is 1 only for a fold that is valid through STRICT. -/
+theorem c11_heal_confidence_unit_and_one_only_strict (env : Env J S C) (cfg : Cfg) (st st' : Stats)
+    (decay : Rat) (maxRetries : Nat) (gen : Nat → Text) (h : HealOut S C)
+    (hres : (heal env cfg st decay maxRetries gen).res = .ok (st', h)) :
+    0 ≤ h.finalConfidence ∧ h.finalConfidence ≤ 1 ∧
+    (∀ f, h.folded = some f → f.confidence = h.finalConfidence) ∧
+    (∀ a ∈ h.attempts, 0 ≤ a.confidence ∧ (a.success = false → a.confidence = 0)) ∧
+    (h.finalConfidence = 1 → ∃ f, h.folded = some f ∧ f.valid = true ∧ f.strategyUsed = some .strict) := by
+  obtain ⟨st2, h2, hres2, hcase⟩ := healFrom_spec env cfg decay gen (maxRetries + 1) 0 st []
+  unfold heal at hres
+  rw [hres2] at hres
+  simp at hres
+  obtain ⟨rfl, rfl⟩ := hres
+  rcases hcase with ⟨_, hf, hfc, _, ha⟩ | ⟨j, stj, stj', r, _, _, hfold, hrv, hf, hfc, _, _, ha⟩
+  · rw [hfc, hf, ha]
+    refine ⟨by grind, by grind, by simp, ?_, by grind⟩
+    intro a hmem
+    simp [failedAtts] at hmem
+    obtain ⟨i, _, rfl⟩ := hmem
+    exact ⟨Rat.le_refl, fun _ => rfl⟩
+  · obtain ⟨hc0, hc1, hone, _⟩ := c11_confidence_unit_and_one_only_strict env cfg stj stj' (gen j) [] r hfold
+    have hceil := healCeiling_nonneg decay j
+    have hmin0 : 0 ≤ ratMin r.confidence (healCeiling decay j) := by unfold ratMin; split <;> assumption
+    have hmin1 : ratMin r.confidence (healCeiling decay j) ≤ r.confidence := by unfold ratMin; split <;> grind
+    rw [hfc, hf, ha]
+    refine ⟨hmin0, by grind, by simp [healedFold], ?_, ?_⟩
+    · intro a hmem
+      simp [failedAtts] at hmem
+      rcases hmem with ⟨i, _, rfl⟩ | rfl
+      · exact ⟨Rat.le_refl, fun _ => rfl⟩
+      · exact ⟨hceil, by simp⟩
+    · intro h1
+      have hr1 : r.confidence = 1 := by grind
+      obtain ⟨hv, hs⟩ := hone.mp hr1
+      exact ⟨_, rfl, by simpa [healedFold] using hv, by simpa [healedFold] using hs⟩
+
 /-! ## The coercion helper cannot make values up -/
 
 /-- non-vacuity: the JSON object `5` = `{k0: v10}` where `v10` is the string "4"; field `k0` is annotated `int`;
